@@ -4,6 +4,9 @@
 reads   <vcheck.REPO>/quill/src/lines.rs  tiny_v2.rs  tiny_v2_diff.rs  enigma_file.rs  dukenest/src/io.rs   (reader parts)
         <vcheck.REPO>/duke/src/simple_class_writer.rs  simple_class_writer/{labels,pool}.rs  duke/src/lib.rs (write_usize_as_*)
         <vcheck.REPO>/duke/src/class_reader.rs   (the element_value readers and their `nesting` arguments)
+        the class reader's own files: duke/src/class_reader.rs  class_reader/{pool,labels}.rs  lib.rs (ClassRead, read_class*)
+        jstring.rs (from_vec_to_string)  macros.rs  tree/descriptor.rs (read_field_type, the parse functions)  tree/mod.rs (mod names)
+        tree/method/code.rs (from_atype)  visitor/implementations/{tree,unit_tuple}.rs
 writes  <vcheck.COQ>/C16/SitesGen.v
 
 For every function in scope it lists, from the token stream (comments and literals removed):
@@ -11,7 +14,13 @@ For every function in scope it lists, from the token stream (comments and litera
   binary integer arithmetic (+ - * / % << >> and the compound assignments), `as <numeric type>` casts,
   calls with a precondition or an allocation argument (from_str_radix, split_at, with_capacity, repeat, ...),
   `while` / `loop` loops with their condition, and recursive calls with their arguments;
-for the class writer additionally every `uN::try_from` / `.try_into()` / `write_usize_as_uN` call site.
+for the class writer (and the class reader) additionally every `uN::try_from` / `.try_into()` / `write_usize_as_uN` /
+  `checked_*` call site;
+and every placeholder of every formatting macro (`anyhow!`, `bail!`, `format!`, `write!`, ...): `display EXPR` for `{}`
+  (the Display impl of the argument runs: the name / descriptor newtypes of duke return fmt::Error on an unpaired
+  surrogate, which makes `format!` panic), `debug EXPR` for `{:?}`, `format:<spec> EXPR` for the other traits; every
+  construction of `fmt::Error` (`fallible-fmt`); every `.to_string()` (listed as `display E (to_string)`).  For the class reader all of them are listed, for the text readers and
+  the class writer the `display` / `format:` ones (and `fallible-fmt`).
 The lists are sorted (moving code around is not a change), one entry per occurrence.
 coq/C16/TheorySites.v states what the model does with each entry and proves that the generated lists are the
 modelled ones, so a new slice, cast, unwrap, arithmetic operation, loop or recursive call in these functions
@@ -205,6 +214,17 @@ def scan_body(s, lo, hi, fname, writer):
         close = match_close(t, m.end() - 1, "(", ")")
         pre = operand_left(t, m.start())
         sites.append("call %s%s(%s)" % (norm(pre), m.group(1), norm(t[m.end():close])))
+    for m in re.finditer(r"\.read_vec\s*\(", t):
+        # ClassRead::read_vec(get_size, get_element) allocates `get_size` elements up front
+        close = match_close(t, m.end() - 1, "(", ")")
+        depth, j = 0, m.end()
+        while j < close and not (t[j] == "," and depth == 0):
+            depth += t[j] in "([{"
+            depth -= t[j] in ")]}"
+            j += 1
+        sites.append("alloc read_vec(%s, ..)" % norm(t[m.end():j]))
+    for m in re.finditer(r"\.(visit_annotable_parameter_count|visit_parameter_annotation)\s*\(", t):
+        sites.append("call .%s() (todo! in the tree-building visitors)" % m.group(1))
     for m in re.finditer(r"\bvec!\s*\[", t):
         close = match_close(t, m.end() - 1, "[", "]")
         inner = t[m.end():close]
@@ -252,36 +272,23 @@ def scan_body(s, lo, hi, fname, writer):
 
 
 def scope_sites(path_rel, src, scopes, writer, errs):
-    """scopes: None (whole file) or a list of 'fn:NAME' / 'mod:NAME'"""
+    """scopes: None (whole file) or a list of 'fn:NAME' / 'mod:NAME' / 'item:REGEX' (the brace block of the matching item)"""
     s = strip_source(src)
     fns = functions(s)
-    ranges = []
-    if scopes is None:
-        ranges.append((0, len(s)))
-    else:
-        for sc in scopes:
-            kind, name = sc.split(":")
-            if kind == "fn":
-                found = [f for f in fns if f[0] == name]
-                if not found:
-                    errs.append("%s: function %s not found" % (path_rel, name))
-                ranges.extend((f[1], f[3] + 1) for f in found)
-            else:
-                m = re.search(r"\bmod\s+%s\s*\{" % re.escape(name), s)
-                if not m:
-                    errs.append("%s: module %s not found" % (path_rel, name))
-                    continue
-                ranges.append((m.start(), match_close(s, m.end() - 1, "{", "}") + 1))
+    ranges = scope_ranges(path_rel, s, fns, scopes, errs)
+    tests = [(m.start(), match_close(s, s.index("{", m.end() - 1), "{", "}")) for m in re.finditer(r"#\[cfg\(test\)\]\s*mod\s+\w+\s*\{", s)] if writer == "reader" else []
     out = []
     for (name, sig, body, close) in fns:
         if not any(lo <= sig and close < hi for lo, hi in ranges):
+            continue
+        if any(lo <= sig and close <= hi for lo, hi in tests):
             continue
         # blank the nested functions (they are listed on their own)
         t = s
         for (n2, sig2, body2, close2) in fns:
             if body < sig2 and close2 < close:
                 t = t[:sig2] + " " * (close2 + 1 - sig2) + t[close2 + 1:]
-        for site in scan_body(t, body, close + 1, name, writer):
+        for site in scan_body(t, body, close + 1, name, bool(writer)):
             out.append(("%s::%s" % (path_rel, name), site))
     counted = {}
     for k in out:
@@ -332,6 +339,220 @@ def call_cycles(path_rel, src, errs):
     return [("%s::%s" % (path_rel, c[0]), "mutual-recursion " + " <-> ".join(c), 1) for c in sorted(comps)]
 
 
+def mask_source(src):
+    """same length as src: comments and the contents of string literals blanked, char literals -> '_' (newlines kept)"""
+    out = list(src)
+    i, n = 0, len(src)
+
+    def blank(a, b):
+        for k in range(a, b):
+            if out[k] != "\n":
+                out[k] = " "
+    while i < n:
+        c = src[i]
+        if src.startswith("//", i):
+            j = src.find("\n", i)
+            j = n if j < 0 else j
+            blank(i, j)
+            i = j
+            continue
+        if src.startswith("/*", i):
+            depth, j = 1, i + 2
+            while j < n and depth:
+                if src.startswith("/*", j):
+                    depth += 1
+                    j += 2
+                elif src.startswith("*/", j):
+                    depth -= 1
+                    j += 2
+                else:
+                    j += 1
+            blank(i, j)
+            i = j
+            continue
+        m = re.match(r'b?r(#*)"', src[i:])
+        if m and (i == 0 or not (src[i - 1].isalnum() or src[i - 1] == "_")):
+            hashes = m.group(1)
+            end = src.find('"' + hashes, i + len(m.group(0)))
+            if end < 0:
+                raise ValueError("unterminated raw string")
+            blank(i + len(m.group(0)), end)
+            i = end + 1 + len(hashes)
+            continue
+        if c == '"':
+            j = i + 1
+            while j < n and src[j] != '"':
+                j += 2 if src[j] == "\\" else 1
+            if j >= n:
+                raise ValueError("unterminated string literal")
+            blank(i + 1, j)
+            i = j + 1
+            continue
+        if c == "'":
+            m = re.match(r"'(\\x[0-9a-fA-F]{2}|\\u\{[0-9a-fA-F_]+\}|\\.|[^\\'\n])'", src[i:])
+            if m:
+                for k in range(i + 1, i + len(m.group(0)) - 1):
+                    out[k] = "_"
+                i += len(m.group(0))
+                continue
+        i += 1
+    return "".join(out)
+
+
+def split_top(s, lo, hi):
+    """(start, end) of the top-level comma separated pieces of s[lo:hi] (s is masked text)"""
+    parts, depth, a = [], 0, lo
+    for j in range(lo, hi):
+        ch = s[j]
+        if ch in "([{":
+            depth += 1
+        elif ch in ")]}":
+            depth -= 1
+        elif ch == "," and depth == 0:
+            parts.append((a, j))
+            a = j + 1
+    if s[a:hi].strip():
+        parts.append((a, hi))
+    return parts
+
+
+def placeholders(lit):
+    """[(argument, spec)] of a format string (the text between the quotes)"""
+    res, i = [], 0
+    while i < len(lit):
+        if lit.startswith("{{", i) or lit.startswith("}}", i):
+            i += 2
+            continue
+        if lit[i] == "{":
+            j = lit.find("}", i)
+            if j < 0:
+                raise ValueError("unbalanced { in format string %r" % lit)
+            arg, _, spec = lit[i + 1:j].partition(":")
+            res.append((arg.strip(), spec.strip()))
+            i = j + 1
+            continue
+        i += 1
+    return res
+
+
+def format_sites(src, masked, lo, hi):
+    """`display E` / `debug E` / `format:<spec> E` for every placeholder of every formatting macro in masked[lo:hi];
+    `fallible-fmt` for every `fmt::Error` that is constructed"""
+    sites = []
+    for m in re.finditer(r"\b(\w+)!\s*\(", masked[lo:hi]):
+        start = lo + m.end() - 1
+        close = match_close(masked, start, "(", ")")
+        parts = split_top(masked, start + 1, close)
+        k = None
+        for idx, (a, b) in enumerate(parts[:3]):
+            t = masked[a:b].strip()
+            if re.fullmatch(r'"\s*"', t, re.S) or (t.startswith('"') and t.endswith('"') and t.count('"') == 2):
+                k = idx
+                break
+        if k is None:
+            continue
+        a, b = parts[k]
+        raw = src[a:b].strip()
+        lit = raw[1:-1]
+        named, pos = {}, []
+        for (a2, b2) in parts[k + 1:]:
+            piece = src[a2:b2].strip()
+            mm = re.match(r"^(\w+)\s*=(?!=)\s*(.*)$", piece, re.S)
+            if mm:
+                named[mm.group(1)] = mm.group(2)
+            else:
+                pos.append(piece)
+        nxt = 0
+        for arg, spec in placeholders(lit):
+            if "$" in spec or "*" in spec:
+                raise ValueError("format spec %r takes its width / precision from an argument (not supported)" % spec)
+            if arg == "":
+                if nxt >= len(pos):
+                    raise ValueError("format string %r has more placeholders than arguments" % lit)
+                e = pos[nxt]
+                nxt += 1
+            elif arg.isdigit():
+                if int(arg) >= len(pos):
+                    raise ValueError("format string %r: no argument %s" % (lit, arg))
+                e = pos[int(arg)]
+            else:
+                e = named.get(arg, arg)
+            ty = spec.lstrip("<^>+-#0123456789. ")
+            if spec.endswith("?"):
+                kind = "debug"
+            elif ty == "":
+                kind = "display"
+            else:
+                kind = "format:" + ty
+            sites.append("%s %s" % (kind, norm(e)))
+    for m in re.finditer(r"\bfmt::Error\b(?!\s*>)", masked[lo:hi]):
+        sites.append("fallible-fmt fmt::Error")
+    # `x.to_string()` runs the Display impl of x as well (and panics when that returns an error)
+    for m in re.finditer(r"\.to_string\s*\(\s*\)", masked[lo:hi]):
+        sites.append("display %s (to_string)" % norm(operand_left(masked, lo + m.start())))
+    return sites
+
+
+def find_item(s, pattern):
+    """(start, end) of the brace block of the item whose header matches `pattern` (a regular expression)"""
+    m = re.search(pattern + r"[^{;]*\{", s)
+    if not m:
+        return None
+    return (m.start(), match_close(s, m.end() - 1, "{", "}") + 1)
+
+
+def scope_ranges(path_rel, s, fns, scopes, errs):
+    ranges = []
+    if scopes is None:
+        return [(0, len(s))]
+    for sc in scopes:
+        kind, name = sc.split(":", 1)
+        if kind == "fn":
+            found = [f for f in fns if f[0] == name]
+            if not found:
+                errs.append("%s: function %s not found" % (path_rel, name))
+            ranges.extend((f[1], f[3] + 1) for f in found)
+        elif kind == "mod":
+            m = re.search(r"\bmod\s+%s\s*\{" % re.escape(name), s)
+            if not m:
+                errs.append("%s: module %s not found" % (path_rel, name))
+                continue
+            ranges.append((m.start(), match_close(s, m.end() - 1, "{", "}") + 1))
+        else:
+            r = find_item(s, name)
+            if r is None:
+                errs.append("%s: item /%s/ not found" % (path_rel, name))
+                continue
+            ranges.append(r)
+    return ranges
+
+
+def fmt_scope_sites(path_rel, src, scopes, keep, errs):
+    """format placeholders per function of the scope; keep(site) filters"""
+    masked = mask_source(src)
+    fns = functions(masked)
+    ranges = scope_ranges(path_rel, masked, fns, scopes, errs)
+    # test modules are never part of a scope
+    tests = [(m.start(), match_close(masked, masked.index("{", m.end() - 1), "{", "}")) for m in re.finditer(r"#\[cfg\(test\)\]\s*mod\s+\w+\s*\{", masked)]
+    out = []
+    for (name, sig, body, close) in fns:
+        if not any(lo <= sig and close < hi for lo, hi in ranges):
+            continue
+        if any(lo <= sig and close <= hi for lo, hi in tests):
+            continue
+        t = masked
+        for (n2, sig2, body2, close2) in fns:
+            if body < sig2 and close2 < close:
+                t = t[:sig2] + " " * (close2 + 1 - sig2) + t[close2 + 1:]
+        for site in format_sites(src, t, body, close + 1):
+            if keep(site):
+                out.append(("%s::%s" % (path_rel, name), site))
+    counted = {}
+    for k in out:
+        counted[k] = counted.get(k, 0) + 1
+    return sorted((a, b, n) for (a, b), n in counted.items())
+
+
 TEXT_SCOPES = [
     ("quill/src/lines.rs", None),
     ("quill/src/tiny_v2.rs", ["fn:read_file", "fn:read", "fn:unescape", "fn:add_comment"]),
@@ -345,6 +566,21 @@ WRITER_SCOPES = [
     ("duke/src/simple_class_writer/pool.rs", None),
     ("duke/src/lib.rs", ["fn:write_usize_as_u8", "fn:write_usize_as_u16", "fn:write_usize_as_u32"]),
     ("duke/src/tree/descriptor.rs", ["fn:get_arguments_size"]),
+]
+
+READER_SCOPES = [
+    ("duke/src/class_reader.rs", None),
+    ("duke/src/class_reader/pool.rs", None),
+    ("duke/src/class_reader/labels.rs", None),
+    ("duke/src/lib.rs", ["fn:read_class_multi", "fn:read_class", r"item:\btrait\s+OptionExpansion\b", r"item:\bimpl<T>\s+OptionExpansion<T>\s+for\b",
+                         r"item:\btrait\s+ClassRead\b", r"item:\bimpl<T:\s*Read\s*\+\s*Seek>\s+ClassRead\s+for\b"]),
+    ("duke/src/jstring.rs", ["fn:from_vec_to_string"]),
+    ("duke/src/macros.rs", None),
+    ("duke/src/tree/descriptor.rs", ["fn:read_field_type", "fn:parse"]),
+    ("duke/src/tree/mod.rs", ["mod:names"]),
+    ("duke/src/tree/method/code.rs", ["fn:from_atype"]),
+    ("duke/src/visitor/implementations/tree.rs", None),
+    ("duke/src/visitor/implementations/unit_tuple.rs", None),
 ]
 
 
@@ -425,6 +661,32 @@ def run():
                 writer_sites += scope_sites(rel, src, scopes, True, errs) + (call_cycles(rel, src, errs) if scopes is None else [])
             except ValueError as e:
                 errs.append("%s: %s" % (rel, e))
+    reader_sites, text_fmt_sites, writer_fmt_sites = [], [], []
+    not_debug = lambda site: not site.startswith("debug ")
+    for rel, scopes in READER_SCOPES:
+        src = read(rel)
+        if src is not None:
+            try:
+                reader_sites += sorted(scope_sites(rel, src, scopes, "reader", errs) + fmt_scope_sites(rel, src, scopes, lambda site: True, errs)) \
+                    + (call_cycles(rel, src, errs) if scopes is None else [])
+            except ValueError as e:
+                errs.append("%s: %s" % (rel, e))
+    for rel, scopes in TEXT_SCOPES:
+        src = read(rel)
+        if src is not None:
+            try:
+                text_fmt_sites += fmt_scope_sites(rel, src, scopes, not_debug, errs)
+            except ValueError as e:
+                errs.append("%s: %s" % (rel, e))
+    for rel, scopes in WRITER_SCOPES:
+        src = read(rel)
+        if src is not None:
+            try:
+                writer_fmt_sites += fmt_scope_sites(rel, src, scopes, not_debug, errs)
+            except ValueError as e:
+                errs.append("%s: %s" % (rel, e))
+    if not reader_sites:
+        errs.append("no site found in the class reader")
     ev_calls, ev_entries, ev_checks, ev_limit = [], [], [], None
     src = read("duke/src/class_reader.rs")
     if src is not None:
@@ -470,6 +732,20 @@ def run():
     L.append(";\n".join("  (%s, [%s])" % (cstr(a), "; ".join(cstr(x) for x in b)) for a, b in ev_checks))
     L.append("].")
     L.append("Definition ev_limit : nat := %d." % ev_limit)
+    L.append("")
+    L.append("(* the class reader's own files (class_reader.rs, pool.rs, labels.rs, ClassRead of lib.rs, jstring, macros, the descriptor parsers, names,")
+    L.append("   the tree-building visitors): everything above plus every placeholder of every formatting macro (display / debug / format:<spec>) *)")
+    L.append("Definition reader_sites : list (string * string * nat) := [")
+    L.append(";\n".join("  (%s, %s, %d)" % (cstr(a), cstr(b), n) for a, b, n in reader_sites))
+    L.append("].")
+    L.append("")
+    L.append("(* formatting placeholders that run a Display (or LowerHex, ...) impl in the text readers / in the class writer *)")
+    L.append("Definition text_fmt_sites : list (string * string * nat) := [")
+    L.append(";\n".join("  (%s, %s, %d)" % (cstr(a), cstr(b), n) for a, b, n in text_fmt_sites))
+    L.append("].")
+    L.append("Definition writer_fmt_sites : list (string * string * nat) := [")
+    L.append(";\n".join("  (%s, %s, %d)" % (cstr(a), cstr(b), n) for a, b, n in writer_fmt_sites))
+    L.append("].")
     out = os.path.join(vcheck.COQ, "C16", "SitesGen.v")
     new = "\n".join(L) + "\n"
     old = None
